@@ -102,7 +102,9 @@ func (t *Dense) Norm(ord NormOrder, axes ...int) (retVal *Dense, err error) {
 			ap.lock()
 
 			t.AP = ap
-			if ret, err = Dot(t, t); err != nil { // returns a scalar
+			ret, err = Dot(t, t) // returns a scalar
+			t.AP = backup
+			if err != nil {
 				err = errors.Wrapf(err, opFail, "Norm-0")
 				return
 			}
@@ -116,7 +118,6 @@ func (t *Dense) Norm(ord NormOrder, axes ...int) (retVal *Dense, err error) {
 			case Float32:
 				retVal.SetF32(0, math32.Sqrt(retVal.GetF32(0)))
 			}
-			t.AP = backup
 			return
 		}
 
